@@ -303,6 +303,99 @@ func nodeMade(r *report.Run, rng *report.Rand, idx int, kind int, n int) {
 	}
 }
 
+// restartGaps: clock-less (and same-millisecond) bundles of one application, some of which leave the node before a
+// restart, so that the IDs left in the store have gaps; further submissions after each restart must still get IDs
+// that are distinct from everything stored or transmitted.
+func restartGaps(r *report.Run, rng *report.Rand, idx int) {
+	label := "restart:zero-time"
+	mode := 1
+	if idx%3 == 2 {
+		label, mode = "restart:now", 0
+	}
+	err := bubble.Run(nil, func(t *testing.T) {
+		s, err := nodesim.New(nodesim.Config{Routing: nodesim.RoutingConf("epidemic")})
+		if err != nil {
+			r.Violation("c14.open-failed", err.Error(), nil)
+			return
+		}
+		defer s.Close()
+		o := &obs{r: r, s: s, label: label, desc: map[string]interface{}{"workload": label}}
+		now := time.Now()
+		n := 0
+		waiting := map[string]bool{} // content keys that must still be in the store
+		submit := func(dest string) {
+			n++
+			pid := fmt.Sprintf("rg%d-%d", idx, n)
+			bl := bpv7.Builder().CRC(bpv7.CRC32).Source("dtn://node/app").Destination("dtn://" + dest + "/in").Lifetime("24h")
+			if mode == 1 {
+				bl = bl.CreationTimestampEpoch().BundleAgeBlock(uint64(10))
+			} else {
+				bl = bl.CreationTimestampTime(now)
+			}
+			b, err := bl.PayloadBlock(nodesim.Payload(pid, 6)).Build()
+			if err != nil {
+				panic(err)
+			}
+			s.Submit(b)
+			connected := false
+			for _, p := range s.PeersUp() {
+				if p == dest {
+					connected = true
+				}
+			}
+			if !connected {
+				waiting["pid:"+pid] = true
+			}
+		}
+		keys := func() []string {
+			var ks []string
+			for k := range waiting {
+				ks = append(ks, k)
+			}
+			return ks
+		}
+		for round := 0; round < 3 && !o.bad; round++ {
+			// dB is connected: bundles for dB leave the node and the store at once, the others wait
+			s.PeerUp("dB")
+			k := 2 + rng.Intn(4)
+			for i := 0; i < k; i++ {
+				if rng.Intn(3) == 0 {
+					submit("dB")
+				} else {
+					submit([]string{"dA", "dC"}[rng.Intn(2)])
+				}
+			}
+			o.checkAll(keys())
+			if err := s.Restart(); err != nil {
+				o.violation("c14.restart-failed", err.Error())
+				return
+			}
+		}
+		// finally the other destinations appear: every waiting bundle leaves under its own ID
+		s.PeerUp("dA")
+		s.PeerUp("dC")
+		s.Tick(10 * time.Second)
+		o.checkAll(nil)
+		seen := map[string]bool{}
+		for _, x := range s.Sends() {
+			seen[contentKey(x.Bundle)] = true
+		}
+		for i := 1; i <= n; i++ {
+			k := fmt.Sprintf("pid:rg%d-%d", idx, i)
+			if !seen[k] {
+				o.violation("c14.never-transmitted:"+label, fmt.Sprintf("bundle %s never left the node although its destination was connected (another bundle took its ID?)", k))
+			}
+		}
+		if !o.bad {
+			r.Nontrivial(label, idx, n)
+			r.Count("groups."+label, 1)
+		}
+	})
+	if err != nil {
+		r.Violation("c14.node-deadlock-or-panic", err.Error(), map[string]interface{}{"workload": label})
+	}
+}
+
 func TestCheck(t *testing.T) {
 	bubble.Quiet()
 	bubble.SetT(t)
@@ -339,6 +432,10 @@ func TestCheck(t *testing.T) {
 		}
 	})
 	r.Exhaustive("group size 1..6 x {SendBundle, agent manager} x {now, zero time, two minutes ago} x {no peer, peer} x {sequential, concurrent}")
+
+	r.Group("restart-gaps", r.Pick(48, 600), func(i int, rng *report.Rand) {
+		restartGaps(r, rng, i)
+	})
 
 	r.Group("node-made", 4*r.Pick(5, 50), func(i int, rng *report.Rand) {
 		nodeMade(r, rng, i, i%4, 2+(i/4)%5)
